@@ -57,7 +57,27 @@ CLAIMS['C13'] = dict(
          'raw names plus root" clause lives with C03/C01 (as_raw_sourcemap).',
     design_ref='DESIGN.md 5 C13')
 
+CLAIMS['C03'] = dict(
+    text='Unbounded proof that the real serialize_mappings (and encode_vlq_diff / encode_vlq under it) writes exactly the reference "mappings" string of the '
+         "map's token list: ';' per line advanced, ',' between segments, per-line column reset, running source/line/column/name deltas, 1/4/5 fields, exact "
+         'consecutive duplicates dropped (spec/mappings_enc.rs, written from the format). PARTIAL: the field plumbing of as_raw_sourcemap and the serde '
+         'attributes are not under contract yet (see evidence.not_covered).',
+    note=_TB + 'Requires the map invariant "tokens sorted" (proved for every constructor in C04). serde_json writing the string faithfully is assumed.',
+    design_ref='DESIGN.md 5 C03')
+CLAIMS['C01'] = dict(
+    text='PARTIAL, by composition of contracts: the writer emits the reference encoding (C03 contract), the VLQ layer is proved inverse (C11 lemmas: decode(encode(xs)) == xs), '
+         'raw sources + root are what the map stores and re-derives (C13 cache invariant). The mapping-level inverse lemma decode(encode(ts)) == dedup(ts) and the '
+         'as_raw_sourcemap / decode_regular field plumbing are not yet under contract (evidence.not_covered).',
+    note=_TB + 'serde_json (de)serialisation assumed faithful.',
+    design_ref='DESIGN.md 5 C01')
+CLAIMS['C02'] = dict(
+    text='PARTIAL: tokens come out ordered (SourceMap::new returns a sorted permutation), the sourceRoot joining rule (prefix_source / set_source_root / get_source against '
+         'prefix_spec), VLQ digits read per the reference decoder, and the mapping loop of decode_regular proved panic-free with every stored index resolving. The '
+         'exact per-line / global accumulator semantics against a reference mappings decoder, kind dispatch and lenient conversions are not yet under contract.',
+    note=_TB + 'serde_json assumed.',
+    design_ref='DESIGN.md 5 C02')
+
 NOT_APPLICABLE = {p: 'under construction in this session (contract-based check being built; see DESIGN.md decision table)' for p in
-                  ['C01', 'C02', 'C03', 'C05', 'C08', 'C09', 'C10', 'C14', 'C15', 'C17', 'C18', 'C19', 'C20']}
+                  ['C05', 'C08', 'C09', 'C10', 'C14', 'C15', 'C17', 'C18', 'C19', 'C20']}
 NOT_APPLICABLE['C16'] = ('concurrency (interleavings of threads sharing a SourceView over std Mutex / atomics): Kani has no thread support and Verus needs '
                          'its own permission-typed primitives, so no contract within reach of the installed verifiers expresses or decides it')
